@@ -186,7 +186,8 @@ def _work(seed):
                 break
             tree.run_step()
             steps += 1
-    res = rec.run_spec(spec, mode=mode)
+    with common.time_limit(common.RUN_LIMIT):
+        res = rec.run_spec(spec, mode=mode)
     return {"seed": seed, "spec": spec, "error": res["error"], "cases": out, "viol": viol, "engines": [l["engine"] for l in spec["levels"]]}
 
 
